@@ -84,9 +84,16 @@
                               non-empty for Host::parse (host_parse_ok_on), which the REAL host functions satisfy
                               relative to the first clause of the oracle hypothesis (IdnaOut): C07_statement's clauses
                               and all histories for the linked model against the Standard with its own host parser
-   The gap: host / hostname / pathname on file URLs (class 4 of Known_C07 covers them all), inputs and href
-   values whose scheme is "file", href values whose URL exceeds u32::MAX bytes, and host_parse_ok / host_parse_ok_on
-   (or the concrete host functions under IdnaOut) in place of hosts_agree.
+     C07_parse_file_shaped, C07_corr_sane, C07_parse_all_corrS2, C07_href_equiv2, C07_statement_on2,
+     C07_statement_ten_all2, C07_real_host_parse_ok_onF, C07_statement_model2, C07_model_histories2
+                              inputs and href values whose scheme is "file": the parse clause for EVERY input outside
+                              Known_C01 (as in C07_statement) and href on every value up to the Overflow arm, from
+                              C01_statement_all3; the host hypothesis gains "the two host parsers agree on 'localhost'"
+                              (host_parse_ok_onF), met by the real host functions under IdnaOut; the three clauses and
+                              all histories without the premise input_is_file = false
+   The gap: href values whose URL exceeds u32::MAX bytes, host_parse_ok_onF (or the concrete host functions under
+   IdnaOut) in place of hosts_agree, strings that are not scalar-value strings.  (host / hostname / pathname on file
+   URLs: class 4 of Known_C07 covers them all - an exclusion of the statement.)
    It is covered by the fixed-seed differential run implementation <-> specification model of the
    harness (a test). *)
 From Coq Require Import String.
@@ -104,7 +111,8 @@ From RU Require Import Base.Prelude Base.Utf8 Model.AsciiSet Gen.Tables Model.Pe
   Proofs.C07_SpecHost2 Proofs.C07_EqHostNoPort Proofs.C07_SpecHostPort Proofs.C07_EqHostPort Proofs.C07_EqNine
   Proofs.C06_Host Proofs.C09_Host Proofs.C16_RT6Model Proofs.C07_HostReal
   Proofs.C07_SpecPath Proofs.C07_PathText Proofs.C07_PathKnown Proofs.C07_PathMarker Proofs.C07_EqPathname Proofs.C07_EqTen
-  Proofs.C03_ReachParts Proofs.C09_Long Proofs.C09_RealC01 Proofs.C07_SpecInvU Proofs.C07_HostOn Proofs.C07_AllOn Proofs.C07_RealOut.
+  Proofs.C03_ReachParts Proofs.C09_Long Proofs.C09_RealC01 Proofs.C07_SpecInvU Proofs.C07_HostOn Proofs.C07_AllOn Proofs.C07_RealOut
+  Proofs.C01_EqFile Proofs.C07_FileShape Proofs.C07_EqFileAll.
 
 (* ---------- the statement ---------- *)
 
@@ -1637,6 +1645,247 @@ Example C07_statement_model_inhabited :
 Proof.
   split; [exact IdnaOK2_out|]. split; [exact IdnaOK_out|]. split; [exact (IdnaOK_out idna_clean idna_clean_ok)|].
   eexists. split; [vm_compute; reflexivity|]. split; [vm_compute; repeat split | vm_compute; reflexivity].
+Qed.
+
+(* ---------- file inputs and file href values: the three clauses without the premise input_is_file = false ---------- *)
+
+(* every record parse_url returns without a base for an input whose scheme is "file" starts with "file://", has
+   scheme_end = 4, username_end = host_start = 7 (no credentials) and no port - for all host functions *)
+Theorem C07_parse_file_shaped : forall dbg hp hpo hd ovr input sch rem u,
+  parse_scheme CUrlParser (input_new_trim_c0 input) = Some (sch, rem) ->
+  st_is_file (scheme_type_of sch) = true ->
+  parse_url dbg hp hpo hd ovr None input = POk u ->
+  scheme_end u = 4 /\ username_end u = 7 /\ host_start u = 7 /\ port u = None /\ nfirstn 7 (ser u) = s_file_css.
+Proof. exact parse_url_file_shaped. Qed.
+Check C07_parse_file_shaped : forall dbg hp hpo hd ovr input sch rem u,
+  parse_scheme CUrlParser (input_new_trim_c0 input) = Some (sch, rem) ->
+  st_is_file (scheme_type_of sch) = true ->
+  parse_url dbg hp hpo hd ovr None input = POk u ->
+  scheme_end u = 4 /\ username_end u = 7 /\ host_start u = 7 /\ port u = None /\ nfirstn 7 (ser u) = s_file_css.
+Print Assumptions C07_parse_file_shaped.
+
+Example C07_parse_file_shaped_inhabited :
+  exists sch rem u, parse_scheme CUrlParser (input_new_trim_c0 (str " fIle:\\h.x\a/../b?q#f")) = Some (sch, rem)
+    /\ st_is_file (scheme_type_of sch) = true
+    /\ parse_url true ok_hp ok_ho toy_hd None None (str " fIle:\\h.x\a/../b?q#f") = POk u
+    /\ ser u = str "file://h.x/b?q#f".
+Proof. do 3 eexists. split; [vm_compute; reflexivity|]. split; [reflexivity|]. split; vm_compute; reflexivity. Qed.
+
+(* the invariants `sane` of the Standard's record from corr, with the file exception: a record with "//" and without
+   host has no credentials, no port and is not special OR is a file record (false of "file:///p" without the second
+   alternative); a special record has a host; spec_valid (no credentials / port on a file record or an opaque path) *)
+Theorem C07_corr_sane : forall dbg shs u su, corr dbg shs u su ->
+  ((has_opaque_path su = true -> su_host su = None /\ su_username su = [] /\ su_password su = [] /\ su_port su = None)
+   /\ (su_scheme su = str_file -> su_username su = [] /\ su_password su = [] /\ su_port su = None)) ->
+  (has_host u = false -> has_authority_b u = true ->
+   username_end u = host_start u /\ port u = None /\ (is_special su = false \/ su_scheme su = str_file)) ->
+  (is_special su = true -> opt_is_some (su_host su) = true) ->
+  sane su.
+Proof. exact corr_sane. Qed.
+Print Assumptions C07_corr_sane.
+
+(* the host hypothesis for file inputs: host_parse_ok_on and, on every scalar-value string, the two host parsers agree
+   on whether the host is "localhost" (the file host state turns it into the empty host on both sides) *)
+Check host_parse_ok_onF : (list N -> result host) -> (list N -> result host) -> (host -> list N) ->
+  (bool -> list N -> option spec_host) -> (spec_host -> list N) -> Prop.
+Theorem C07_host_parse_ok_onF_unfold : forall hp ho hd shp shs,
+  host_parse_ok_onF hp ho hd shp shs <->
+  (host_parse_ok_on hp ho hd shp shs
+   /\ forall s, usv_list s ->
+        match hp s, host_parsing shp false s with
+        | Ok h, Some sh => (match h with HDomain d => list_eqb d s_localhost | _ => false end)
+                           = (match sh with SDomain d => list_eqb d str_localhost | _ => false end)
+        | _, _ => True
+        end).
+Proof. intros. split; intros H; exact H. Qed.
+Print Assumptions C07_host_parse_ok_onF_unfold.
+
+(* the second clause of C07_statement with R := corrS for EVERY scalar-value input outside Known_C01, the inputs whose
+   scheme is "file" included (those inside the recogniser k_file_ok: the others are class 1 of Known_C01): from
+   C01_statement_all3 through related => corr (C07_EqRel related_corr0) and C07_corr_sane *)
+Theorem C07_parse_all_corrS2 : forall dbg hp ho hd shp shs, host_parse_ok_onF hp ho hd shp shs ->
+  forall input u, usv_list input -> known_c01 None input = 0 ->
+  parse_url dbg hp ho hd None None input = POk u ->
+  exists su, spec_basic_url_parse shp input None = BDone su /\ corrS dbg shs u su.
+Proof. exact parse_all_corrS_F. Qed.
+Check C07_parse_all_corrS2 : forall dbg hp ho hd shp shs, host_parse_ok_onF hp ho hd shp shs ->
+  forall input u, usv_list input -> known_c01 None input = 0 ->
+  parse_url dbg hp ho hd None None input = POk u ->
+  exists su, spec_basic_url_parse shp input None = BDone su /\ corrS dbg shs u su.
+Print Assumptions C07_parse_all_corrS2.
+
+(* href on EVERY value outside classes 11-14 of Known_C07 (= outside Known_C01), "file:" values included, up to C01's
+   Overflow arm (href_fits: the new URL is not longer than u32::MAX bytes) *)
+Theorem C07_href_equiv2 : forall dbg hp ho hd shp shs, host_parse_ok_onF hp ho hd shp shs ->
+  forall u su v, corrS dbg shs u su -> usv_list v -> known_c07 u QHref v = 0 -> href_fits shp shs v ->
+  exists u' su', model_set dbg hp ho hd QHref u v = Some u' /\ spec_step shp QHref su v = Some su'
+    /\ corrS dbg shs u' su'.
+Proof. exact href_step_F. Qed.
+Check C07_href_equiv2 : forall dbg hp ho hd shp shs, host_parse_ok_onF hp ho hd shp shs ->
+  forall u su v, corrS dbg shs u su -> usv_list v -> known_c07 u QHref v = 0 ->
+  match spec_basic_url_parse shp v None with
+  | BDone su' => nlen (get_href shs su') <= U32_MAX_P
+  | _ => True
+  end ->
+  exists u' su', model_set dbg hp ho hd QHref u v = Some u' /\ spec_step shp QHref su v = Some su'
+    /\ corrS dbg shs u' su'.
+Print Assumptions C07_href_equiv2.
+
+(* C07_statement's three clauses under host_parse_ok_onF: the parse clause as in C07_statement ("outside Known_C01"), the
+   one-step clause for all ten setters and every value (href: up to the Overflow arm).  Supersedes C07_statement_on.
+   Against C07_statement (what is still missing): href values whose URL exceeds u32::MAX bytes; host_parse_ok_onF in
+   place of hosts_agree; inputs and values that are scalar-value strings.  (host / hostname / pathname on file URLs are
+   class 4 of Known_C07: an exclusion of the statement itself.) *)
+Theorem C07_statement_on2 : forall dbg hp ho hd shp shs, host_parse_ok_onF hp ho hd shp shs ->
+  exists R : url -> spec_url -> Prop,
+    (forall u su, R u su -> model_api dbg u = Some (spec_api_list shs su))
+    /\ (forall input u, usv_list input -> known_c01 None input = 0 ->
+          parse_url dbg hp ho hd None None input = POk u ->
+          exists su, spec_basic_url_parse shp input None = BDone su /\ R u su)
+    /\ (forall u su s v, R u su -> all_okF shp shs s v -> usv_list v -> known_c07 u s v = 0 ->
+          exists u' su', model_set dbg hp ho hd s u v = Some u' /\ spec_step shp s su v = Some su' /\ R u' su').
+Proof. exact statement_all_onF. Qed.
+Check C07_statement_on2 : forall dbg hp ho hd shp shs, host_parse_ok_onF hp ho hd shp shs ->
+  exists R : url -> spec_url -> Prop,
+    (forall u su, R u su -> model_api dbg u = Some (spec_api_list shs su))
+    /\ (forall input u, usv_list input -> known_c01 None input = 0 ->
+          parse_url dbg hp ho hd None None input = POk u ->
+          exists su, spec_basic_url_parse shp input None = BDone su /\ R u su)
+    /\ (forall u su s v, R u su -> (s <> QHref \/ href_fits shp shs v) -> usv_list v -> known_c07 u s v = 0 ->
+          exists u' su', model_set dbg hp ho hd s u v = Some u' /\ spec_step shp s su v = Some su' /\ R u' su').
+Print Assumptions C07_statement_on2.
+
+(* the same under the hypothesis over all strings: host_parse_ok (of C07_statement_ten_all) + the localhost clause.
+   Supersedes C07_statement_ten_all *)
+Theorem C07_statement_ten_all2 : forall dbg hp ho hd shp shs,
+  host_parse_ok hp ho hd shp shs -> (forall s, host_local_ok hp shp s) ->
+  exists R : url -> spec_url -> Prop,
+    (forall u su, R u su -> model_api dbg u = Some (spec_api_list shs su))
+    /\ (forall input u, usv_list input -> known_c01 None input = 0 ->
+          parse_url dbg hp ho hd None None input = POk u ->
+          exists su, spec_basic_url_parse shp input None = BDone su /\ R u su)
+    /\ (forall u su s v, R u su -> (s <> QHref \/ href_fits shp shs v) -> usv_list v -> known_c07 u s v = 0 ->
+          exists u' su', model_set dbg hp ho hd s u v = Some u' /\ spec_step shp s su v = Some su' /\ R u' su').
+Proof.
+  intros dbg hp ho hd shp shs H1 H2.
+  exact (statement_all_onF dbg hp ho hd shp shs (host_parse_ok_onF_of_all hp ho hd shp shs (conj H1 H2))).
+Qed.
+Print Assumptions C07_statement_ten_all2.
+
+(* the hypotheses can be met (the functions of C07_host_parse_ok_inhabited), and a history that starts from a file
+   input and passes through file href values: "file://h.x/a/../b?q#f", hash := "fr ag", search := "?k=v",
+   href := "file://H.y/a/./b", username := "me" and port := "81" (ignored on a file URL), protocol := "http",
+   href := "file:///C:/d", protocol := "https" (ignored: a file URL with the empty host) *)
+Example C07_statement_ten_all2_inhabited :
+  let input := str "file://h.x/a/../b?q#f" in
+  let ops := [(QHash, str "fr ag"); (QSearch, str "?k=v"); (QHref, str "file://H.y/a/./b"); (QUsername, str "me");
+              (QPort, str "81"); (QProtocol, str "http"); (QHref, str "file:///C:/d"); (QProtocol, str "https")] in
+  host_parse_ok ok_hp ok_ho toy_hd ok_shp toy_shs /\ (forall s, host_local_ok ok_hp ok_shp s)
+  /\ usv_list input /\ known_c01 None input = 0 /\ input_is_file input = true
+  /\ all_opsF ok_shp toy_shs ops
+  /\ exists u, parse_url true ok_hp ok_ho toy_hd None None input = POk u
+       /\ outside_known true ok_hp ok_ho toy_hd u ops
+       /\ option_map q_href (model_run true ok_hp ok_ho toy_hd u (firstn 3 ops)) = Some (str "file://H.y/a/b")
+       /\ option_map q_href (model_run true ok_hp ok_ho toy_hd u (firstn 6 ops)) = Some (str "http://H.y/a/b")
+       /\ option_map q_href (model_run true ok_hp ok_ho toy_hd u ops) = Some (str "file:///C:/d").
+Proof.
+  cbv zeta. split; [exact ok_host_parse_ok|]. split; [exact (proj2 ok_host_parse_okF)|].
+  split; [repeat constructor; vm_compute; auto|]. split; [vm_compute; reflexivity|]. split; [vm_compute; reflexivity|].
+  split.
+  - cbn [all_opsF]. unfold all_okF, href_fits.
+    repeat (split; [first [left; discriminate | right; vm_compute; discriminate | repeat constructor; vm_compute; auto]|]).
+    exact I.
+  - eexists. split; [vm_compute; reflexivity|]. split; [vm_compute; repeat split|].
+    split; [vm_compute; reflexivity|]. split; vm_compute; reflexivity.
+Qed.
+
+(* the REAL host functions satisfy host_parse_ok_onF relative to IdnaOut *)
+Theorem C07_real_host_parse_ok_onF : forall idna, IdnaOut idna ->
+  host_parse_ok_onF (host_parse idna) host_parse_opaque host_display (spec_host_parser idna) spec_host_serializer.
+Proof. exact real_host_parse_ok_onF_out. Qed.
+Print Assumptions C07_real_host_parse_ok_onF.
+
+(* PARTIAL C07_statement for the linked model against the Standard with its own host parser, relative to IdnaOut only,
+   file inputs and file href values included.  Supersedes C07_statement_model.  Against C07_statement: hosts_agree is
+   replaced by the concrete host functions; still missing: href values beyond u32::MAX bytes; inputs and values are
+   scalar-value strings *)
+Theorem C07_statement_model2 : forall dbg idna, IdnaOut idna ->
+  exists R : url -> spec_url -> Prop,
+    (forall u su, R u su -> model_api dbg u = Some (spec_api_list spec_host_serializer su))
+    /\ (forall input u, usv_list input -> known_c01 None input = 0 ->
+          parse_url dbg (host_parse idna) host_parse_opaque host_display None None input = POk u ->
+          exists su, spec_basic_url_parse (spec_host_parser idna) input None = BDone su /\ R u su)
+    /\ (forall u su s v, R u su -> all_okF (spec_host_parser idna) spec_host_serializer s v -> usv_list v ->
+          known_c07 u s v = 0 ->
+          exists u' su', model_set dbg (host_parse idna) host_parse_opaque host_display s u v = Some u'
+            /\ spec_step (spec_host_parser idna) s su v = Some su' /\ R u' su').
+Proof. exact statement_model_F. Qed.
+Check C07_statement_model2 : forall dbg idna, (forall bs d, idna bs = Some d -> Forall dom_char_ok d) ->
+  exists R : url -> spec_url -> Prop,
+    (forall u su, R u su -> model_api dbg u = Some (spec_api_list spec_host_serializer su))
+    /\ (forall input u, usv_list input -> known_c01 None input = 0 ->
+          parse_url dbg (host_parse idna) host_parse_opaque host_display None None input = POk u ->
+          exists su, spec_basic_url_parse (spec_host_parser idna) input None = BDone su /\ R u su)
+    /\ (forall u su s v, R u su ->
+          (s <> QHref \/ match spec_basic_url_parse (spec_host_parser idna) v None with
+                         | BDone su' => nlen (get_href spec_host_serializer su') <= U32_MAX_P
+                         | _ => True
+                         end) ->
+          usv_list v -> known_c07 u s v = 0 ->
+          exists u' su', model_set dbg (host_parse idna) host_parse_opaque host_display s u v = Some u'
+            /\ spec_step (spec_host_parser idna) s su v = Some su' /\ R u' su').
+Print Assumptions C07_statement_model2.
+
+(* ... and its histories: parse ANY input outside Known_C01, then any history of the ten setters, each step outside
+   Known_C07.  Supersedes C07_model_histories *)
+Theorem C07_model_histories2 : forall dbg idna, IdnaOut idna ->
+  forall input u ops, usv_list input -> known_c01 None input = 0 ->
+  parse_url dbg (host_parse idna) host_parse_opaque host_display None None input = POk u ->
+  all_opsF (spec_host_parser idna) spec_host_serializer ops ->
+  outside_known dbg (host_parse idna) host_parse_opaque host_display u ops ->
+  exists su, spec_basic_url_parse (spec_host_parser idna) input None = BDone su
+    /\ model_api dbg u = Some (spec_api_list spec_host_serializer su)
+    /\ forall n, exists u' su',
+         model_run dbg (host_parse idna) host_parse_opaque host_display u (firstn n ops) = Some u'
+         /\ spec_run (spec_host_parser idna) su (firstn n ops) = Some su'
+         /\ model_api dbg u' = Some (spec_api_list spec_host_serializer su').
+Proof. exact model_histories_F. Qed.
+Check C07_model_histories2 : forall dbg idna, IdnaOut idna ->
+  forall input u ops, usv_list input -> known_c01 None input = 0 ->
+  parse_url dbg (host_parse idna) host_parse_opaque host_display None None input = POk u ->
+  all_opsF (spec_host_parser idna) spec_host_serializer ops ->
+  outside_known dbg (host_parse idna) host_parse_opaque host_display u ops ->
+  exists su, spec_basic_url_parse (spec_host_parser idna) input None = BDone su
+    /\ model_api dbg u = Some (spec_api_list spec_host_serializer su)
+    /\ forall n, exists u' su',
+         model_run dbg (host_parse idna) host_parse_opaque host_display u (firstn n ops) = Some u'
+         /\ spec_run (spec_host_parser idna) su (firstn n ops) = Some su'
+         /\ model_api dbg u' = Some (spec_api_list spec_host_serializer su').
+Print Assumptions C07_model_histories2.
+
+(* met by the oracle idna_clean on a file start URL: "fIle:\\localhost/y" (the host "localhost" becomes the empty host on
+   both sides), search := "a b", href := "file://h.y/a/./b", protocol := "ftp", hash := "x" *)
+Example C07_model_histories2_inhabited :
+  let input := str "fIle:\\localhost/y" in
+  let ops := [(QSearch, str "a b"); (QHref, str "file://h.y/a/./b"); (QProtocol, str "ftp"); (QHash, str "x")] in
+  IdnaOut idna_clean /\ usv_list input /\ known_c01 None input = 0 /\ input_is_file input = true
+  /\ all_opsF (spec_host_parser idna_clean) spec_host_serializer ops
+  /\ exists u, parse_url true (host_parse idna_clean) host_parse_opaque host_display None None input = POk u
+       /\ q_href u = str "file:///y"
+       /\ outside_known true (host_parse idna_clean) host_parse_opaque host_display u ops
+       /\ option_map q_href (model_run true (host_parse idna_clean) host_parse_opaque host_display u (firstn 1 ops))
+          = Some (str "file:///y?a%20b")
+       /\ option_map q_href (model_run true (host_parse idna_clean) host_parse_opaque host_display u ops)
+          = Some (str "ftp://h.y/a/b#x").
+Proof.
+  cbv zeta. split; [exact (IdnaOK_out idna_clean idna_clean_ok)|].
+  split; [repeat constructor; vm_compute; auto|]. split; [vm_compute; reflexivity|]. split; [vm_compute; reflexivity|].
+  split.
+  - cbn [all_opsF]. unfold all_okF, href_fits.
+    repeat (split; [first [left; discriminate | right; vm_compute; discriminate | repeat constructor; vm_compute; auto]|]).
+    exact I.
+  - eexists. split; [vm_compute; reflexivity|]. split; [vm_compute; reflexivity|]. split; [vm_compute; repeat split|].
+    split; vm_compute; reflexivity.
 Qed.
 
 (* ---------- clauses of the Standard's setters, for all records and values ---------- *)
